@@ -555,6 +555,7 @@ func c18Tail(p *core.Program, r *core.Report, e *engines, roles, hc map[string]s
 		r.Check(np > 0 && len(kinds) == 1 && kinds["Int"] && !named, "R18.5", s.Key+"/range membership rewritten only for plain integers", p.Pos(s.Call.Pos()), "operand pinned to predeclared int: "+eng.AbsTypesString(adm),
 			"membership in a literal range is rewritten to comparisons for operands of static type "+eng.AbsTypesString(adm)+": for a float 1.5 the comparison form is true where membership in 1..3 is false")
 	}
+	c18Length(p, r, e, roles)
 	c02RangeShapeAs(p, r, nk, "R18.5")
 	// membership has ONE run-time meaning: the instruction the `in` operator compiles to applies
 	// a single primitive on all completing paths (a fast path for ranges that compares machine
@@ -588,6 +589,7 @@ func c18Tail(p *core.Program, r *core.Report, e *engines, roles, hc map[string]s
 	r.Floor("R18.3", 3)
 	r.Floor("R18.4", 7*3)
 	r.Floor("R18.5", 4)
+	r.Floor("R18.7", 1)
 }
 
 // c02RangeShapeAs re-reports C02's R2.10 obligations under another rule name.
@@ -814,6 +816,73 @@ func c18Accessor(p *core.Program, r *core.Report, e *engines, roles, hc map[stri
 	r.Check(sites > 0 && guarded, "R18.3", "parser/element accessor only inside a closure", "", fmt.Sprintf("%d construction site(s), all under the closure-depth test", sites), "the parser builds an element accessor outside the closure-depth test: outside a builtin's closure there is no scope to read the element from")
 }
 
+// c18Length (R18.7): "slicing at i partitions a sequence" needs the open bound of `xs[i:]` and
+// `xs[:]` — which the code generator obtains with the length instruction — to be in the unit the
+// slice helper indexes by. Both are reflect's: the length helper returns Value.Len() for every
+// kind it accepts, and the slice helper cuts with Value.Slice. A length in another unit (runes of
+// a string) makes `S[:i] + S[i:]` lose the tail of a non-ASCII string.
+func c18Length(p *core.Program, r *core.Report, e *engines, roles map[string]string) {
+	info := p.Pkg("vm").TypesInfo
+	helper := ""
+	for _, role := range roles {
+		if strings.HasPrefix(role, "peek:") {
+			helper = strings.TrimPrefix(role, "peek:")
+		}
+	}
+	fd := p.FuncDecl("vm", "", helper)
+	if helper == "" || fd == nil || fd.Body == nil {
+		r.Unk("R18.7", "vm/length helper", "", "the helper of the length instruction was not found")
+		return
+	}
+	// the open-bound scheme uses that instruction: a SliceNode template contains it
+	used := false
+	for _, t := range e.em.Templates["SliceNode"] {
+		for _, ev := range t.Events {
+			if ev.Kind == "instr" && strings.HasPrefix(roles[ev.Op], "peek:") {
+				used = true
+			}
+		}
+	}
+	bad := ""
+	n := 0
+	ast.Inspect(fd.Body, func(nd ast.Node) bool {
+		rs, ok := nd.(*ast.ReturnStmt)
+		if !ok || len(rs.Results) != 1 {
+			return true
+		}
+		n++
+		c, ok := eng.Unparen(rs.Results[0]).(*ast.CallExpr)
+		okLen := false
+		if ok {
+			if sel, ok := c.Fun.(*ast.SelectorExpr); ok && sel.Sel.Name == "Len" && len(c.Args) == 0 {
+				if t := info.TypeOf(sel.X); t != nil && strings.HasSuffix(t.String(), "reflect.Value") {
+					okLen = true
+				}
+			}
+		}
+		if !okLen {
+			bad = "`" + eng.ExprStr(rs.Results[0]) + "` at " + p.Pos(rs.Pos())
+		}
+		return true
+	})
+	// the slice helper cuts with reflect's Slice
+	cuts := false
+	if sfd := p.FuncDecl("vm", "", "slice"); sfd != nil && sfd.Body != nil {
+		ast.Inspect(sfd.Body, func(nd ast.Node) bool {
+			if c, ok := nd.(*ast.CallExpr); ok {
+				if sel, ok := c.Fun.(*ast.SelectorExpr); ok && sel.Sel.Name == "Slice" {
+					if t := info.TypeOf(sel.X); t != nil && strings.HasSuffix(t.String(), "reflect.Value") {
+						cuts = true
+					}
+				}
+			}
+			return true
+		})
+	}
+	r.Check(bad == "" && n > 0 && used && cuts, "R18.7", "vm."+helper+"/the open slice bound is reflect's length, the unit the slice helper cuts by", p.Pos(fd.Pos()), "every return is Value.Len(); slice uses Value.Slice",
+		"the length helper returns "+bad+fmt.Sprintf(" (open-bound scheme uses it: %v; slice helper cuts with reflect.Value.Slice: %v)", used, cuts)+": the bound that `xs[i:]` receives is then in another unit than the one `slice` indexes by, and `S[:i] + S[i:]` is no longer S for a string with multi-byte characters")
+}
+
 func c18Controls() []core.Mutant {
 	C := "compiler/compiler.go"
 	return []core.Mutant{
@@ -827,6 +896,7 @@ func c18Controls() []core.Mutant {
 		{Name: "loop index advanced twice per iteration", File: C, Old: "\tbody()\n\n\tc.emit(OpInc, i...)\n", New: "\tbody()\n\n\tc.emit(OpInc, i...)\n\tc.emit(OpInc, i...)\n", Rule: "R18.2", Construct: "loop variables and guard"},
 		{Name: "loop guard compares with the collection instead of its length", File: C, Old: "\tc.emit(OpLen)\n\tc.emit(OpStore, size...)\n\tc.emit(OpStore, array...)", New: "\tc.emit(OpLen)\n\tc.emit(OpStore, array...)\n\tc.emit(OpStore, size...)", Rule: "R18.2", Construct: "loop variables and guard"},
 		{Name: "integer fast path for membership in a range", File: "vm/vm.go", Old: "\t\tcase OpIn:\n\t\t\tb := vm.pop()\n\t\t\ta := vm.pop()\n\t\t\tvm.push(in(a, b))", New: "\t\tcase OpIn:\n\t\t\tb := vm.pop()\n\t\t\ta := vm.pop()\n\t\t\tif xs, ok := b.([]int); ok {\n\t\t\t\tn, isInt := a.(int)\n\t\t\t\tvm.push(isInt && len(xs) > 0 && n >= xs[0] && n <= xs[len(xs)-1])\n\t\t\t\tbreak\n\t\t\t}\n\t\t\tvm.push(in(a, b))", Rule: "R18.5", Construct: "membership has one meaning"},
+		{Name: "length of a string counted in runes", File: "vm/runtime.go", Old: "\tcase reflect.Array, reflect.Slice, reflect.Map, reflect.String:\n\t\treturn v.Len()", New: "\tcase reflect.String:\n\t\treturn len([]rune(v.String()))\n\tcase reflect.Array, reflect.Slice, reflect.Map:\n\t\treturn v.Len()", Rule: "R18.7", Construct: "open slice bound"},
 		{Name: "range membership rewritten for every operand type", File: "optimizer/in_range.go", Old: "t != nil && (t.Kind() != reflect.Int || t.PkgPath() != \"\")", New: "t != nil && t.Kind() == reflect.Invalid", Rule: "R18.5", Construct: "inRange"},
 	}
 }
